@@ -374,6 +374,16 @@ CommentLine(i) == <<"#", SP, "c", Digit[i + 1]>>
 Preamble(k) == [i \in 1..k |-> CommentLine(i)]
 Remaining(lines, k) == SubSeq(lines, k + 1, Len(lines))
 
+(* ARGUMENTS THE CALLER KEEPS.  A parser is a function of the lines it is given  *)
+(* and a writer a function of the collection / dict it is given: the call is a    *)
+(* stuttering step for the caller's object.  After Parse(arg) the caller's list   *)
+(* of lines still is the written text (ArgAfterParse), so a second parse of the   *)
+(* SAME object gives the same records, and after Write(x) the caller's dict /     *)
+(* collection still is x (ArgAfterWrite).                                          *)
+ArgAfterParse(lines) == lines
+ArgAfterWrite(c) == [i \in 1..Len(c.names) |-> Rec(c.names[i], c.seqs[i])]
+KeptArguments == {"list of lines", "dict of sequences", "collection"}
+
 (* every text the writer relation allows for the case                          *)
 WrittenTexts(c) == IF c.fmt = "fasta" THEN {FastaLines(c, lay) : lay \in LayoutChoices(c)}
                    ELSE {CanonLines(c)}
@@ -520,6 +530,8 @@ RoundTrip ==
                        allowed_bytes |-> AllowedBytes(case),
                        \* lines a caller consumes from an open handle before handing it to a parser
                        preamble |-> Preamble(2), skips |-> SkipCounts,
+                       \* what the caller's own objects must read as after the calls
+                       arg_after_parse |-> ArgAfterParse(CanonLines(case)), arg_after_write |-> ArgAfterWrite(case),
                        routes |-> IF case.fam = "O" THEN Routes(case.fmt) ELSE {"write"},
                        cls   |-> CaseClass(case),
                        lines |-> CanonLines(case),
@@ -592,6 +604,11 @@ HandleAtKIsRemainingLines ==
         /\ Remaining(Preamble(k) \o CanonLines(case), k) = CanonLines(case)
         /\ \A v \in Variants(case.fmt) : Clean(case, v) =>
                Model(case.fmt, v, Remaining(Preamble(k) \o CanonLines(case), k)) = Ok(Exp(case))
+
+(* parsing the caller's list a second time is parsing the same text              *)
+SecondParseSame ==
+    Ready => \A v \in Variants(case.fmt) :
+        Model(case.fmt, v, ArgAfterParse(CanonLines(case))) = Model(case.fmt, v, CanonLines(case))
 
 (* the order family really is unsorted, so a writer that sorts is caught          *)
 RECURSIVE LexLess(_, _)
